@@ -485,7 +485,11 @@ pub fn exch_step_2a(
     klen: usize,
 ) -> Sm9Result<Vec<u8>> {
     let mut sk = vec![];
+    #[cfg(gm_rs_verif)]
+    let mut verif_iterations = 0u32;
     loop {
+        #[cfg(gm_rs_verif)]
+        crate::verif_hooks::loop_tick(&mut verif_iterations, "exch_step_2a");
         if !rb.is_on_curve() {
             return Err(Sm9Error::InvalidPoint);
         }
